@@ -349,7 +349,15 @@ func (r *transport) handleCacheHit(
 			age := freshness.Age.Value + max(r.clock.Since(freshness.Age.Timestamp), 0)
 			staleFor := age - freshness.UsefulLife
 			if staleFor >= 0 && staleFor < swr {
-				return r.handleStaleWhileRevalidate(req, stored, urlKey, freshness, ccReq)
+				return r.handleStaleWhileRevalidate(
+					req,
+					stored,
+					urlKey,
+					freshness,
+					ccReq,
+					isRespNoCacheQualified,
+					respNoCacheFieldsSeq,
+				)
 			}
 		}
 	}
@@ -404,6 +412,8 @@ func (r *transport) handleStaleWhileRevalidate(
 	urlKey string,
 	freshness *internal.Freshness,
 	ccReq internal.CCRequestDirectives,
+	noCacheQualified bool,
+	noCacheFieldsSeq iter.Seq[string],
 ) (*http.Response, error) {
 	req2 := req.Clone(req.Context())
 	req2 = withConditionalHeaders(req2, stored.Data.Header)
@@ -417,6 +427,13 @@ func (r *transport) handleStaleWhileRevalidate(
 	// The response returned below belongs to the caller from now on: the goroutine gets
 	// the entry's ID and re-reads the entry instead of sharing the response object.
 	go r.backgroundRevalidate(req2, stored.ID, urlKey, freshness, ccReq)
+	if noCacheQualified {
+		// Qualified no-cache: the named fields must not be reused without validation
+		for field := range noCacheFieldsSeq {
+			stored.Data.Header.Del(field)
+		}
+	}
+	internal.SetAgeHeader(stored.Data, r.clock, freshness.Age)
 	internal.CacheStatusStale.ApplyTo(stored.Data.Header)
 	r.logger.LogCacheStaleRevalidate(req, urlKey, internal.MiscFunc(func() internal.Misc {
 		return internal.Misc{
